@@ -93,6 +93,10 @@ def parseExpr : Nat → List String → Option (FExpr × List String)
       let kk := digit k
       let g : Option (Meta → Interest) := if cs == "-" then none else some (fun m => if m.level ≤ kk then .sometimes else .never)
       some (dyn (fun m c => c == 1 && decide (m.level ≤ kk)) (hintOf hs) g, rest)
+    | ['K', ti] =>
+      let tgt : Str := ofString (TARGETS.getD (digit ti) "")
+      some (dyn (fun m c => m.target != tgt || c == 1) none
+                (some (fun m => if m.target = tgt then .sometimes else .always)), rest)
     | ['N'] => some (optNone, rest)
     | ['S'] => (parseExpr fuel rest).map fun (e, r) => (optSome e, r)
     | ['&'] => do
